@@ -155,8 +155,13 @@ func TestExhaustive(t *testing.T) {
 			for c := 0; c*per < len(structs); c++ {
 				chunk := structs[c*per : min((c+1)*per, len(structs))]
 				m := c09x.Meta{Schemes: schemes}
-				if c%2 == 1 {
+				if (c+vi)%2 == 1 {
+					// a global requirement that every scheme-less request fails: inheriting operations
+					// need credentials, operations with "security: []" or an override do not
 					g := structs[(c*7+vi)%len(structs)]
+					if len(g) == 1 && len(g[0]) == 0 {
+						g = structs[len(structs)-1]
+					}
 					m.Global = &g
 				}
 				for i, st := range chunk {
@@ -251,7 +256,11 @@ func drawLarge(t *rapid.T) sampledBatch {
 		nops := rapid.IntRange(2, 6).Draw(t, "nops")
 		for i := 0; i < nops; i++ {
 			op := c09x.Op{ID: fmt.Sprintf("op%d", i), Path: fmt.Sprintf("/o%d", i)}
-			if m.Global == nil || rapid.IntRange(0, 3).Draw(t, "override") > 0 {
+			switch {
+			case m.Global != nil && rapid.IntRange(0, 4).Draw(t, "none") == 0:
+				none := [][]c09x.Req{} // explicit "security: []" switches the global requirement off
+				op.Security = &none
+			case m.Global == nil || rapid.IntRange(0, 3).Draw(t, "override") > 0:
 				st := withScopes(drawStruct("op"), schemes, i)
 				op.Security = &st
 			}
